@@ -1746,7 +1746,7 @@ def class_hierarchy_is_acyclic(ctx):
         ctx.ob("R15.24", "%s|true-on-current_struct" % short, ok, f.loc(cmp_node), "returns true where the type IS the class being defined")
         rec = [c for c in f.walk() if c.get("k") == "call" and c.get("f") == f.name]
         rec_base = [c for c in rec if c.get("a") and any(y.get("k") == "mem" and (y.get("n") or "").endswith("Base::_base") for y in walk(c["a"][0]))]
-        in_loop = [c for c in rec_base if any(lp.get("k") in ("for", "rfor", "while") and any(y.get("k") == "mem" and y.get("n") == "CPPStructType::_derivation" for y in walk(lp)) for lp in enclosing_loops(f, c))]
+        in_loop = [c for c in rec_base if any(lp.get("k") in ("for", "forrange") and any(y.get("k") == "mem" and y.get("n") == "CPPStructType::_derivation" for y in walk(lp)) for lp in enclosing_loops(f, c))]
         prop = False
         for c in in_loop:
             e = G.edges_where(f, lambda atom, truth, c=c: truth and (strip_casts(peel(atom)) or {}).get("i") == c.get("i"))
